@@ -730,3 +730,21 @@ mod tests {
         assert_eq!(factors.get(&FactorKey::MaxBuilderFeeFactor), Some(&0u128));
     }
 }
+
+/// Verification hooks (add-only, compiled only with `--cfg gmsol_verif`).
+#[cfg(gmsol_verif)]
+pub mod verif {
+    use anchor_lang::prelude::*;
+
+    use super::Store;
+
+    /// Wrapper of `Store::update_last_restarted_slot`.
+    pub fn update_last_restarted_slot(store: &mut Store, update: bool) -> Result<u64> {
+        store.update_last_restarted_slot(update)
+    }
+
+    /// Cached last restarted slot.
+    pub fn last_restarted_slot(store: &Store) -> u64 {
+        store.last_restarted_slot
+    }
+}
